@@ -18,7 +18,8 @@ CONSTANTS
   BugCFlowTags,  \* TRUE = pinned reader: ControlFlow tags 1/2 (writer emits 0/1)   (defect #1)
   BugOptTag,     \* TRUE = pinned ε-copy Option: InvalidTag(next byte)               (defect #2)
   BugArray0,     \* TRUE = pinned ε-copy zero-sized zero-copy array: index panic     (defect #3)
-  BugZstSlice    \* TRUE = ε-copy slice of zero-sized elements comes back empty      (defect #4b)
+  BugZstSlice,   \* TRUE = ε-copy slice of zero-sized elements comes back empty      (defect #4b)
+  BugZstNoAlign  \* TRUE = ε-copy of a zero-sized zero-copy value does not skip the padding
 
 ---------------------------------------------------------------------------
 (* Parsing the memory representation of a zero-copy value back (inverse of *)
@@ -234,8 +235,10 @@ StepR ==
                ELSE Cont([i \in 1..T.n |-> FR(T.elem, ElemMode(m))] \o <<FBuild("seq", T.n, 0)>>)
                     /\ UNCHANGED <<vals, rstatus, rdetail, allocs>>
           [] T.k = "tuple" \/ (T.k \in {"struct", "enum"} /\ T.zc) ->
-               \* deserialize_full_zero / deserialize_eps_zero
-               IF m = "eps" /\ SizeOf(T) = 0
+               \* deserialize_full_zero / deserialize_eps_zero: align, then the value (for a zero-sized type the
+               \* block is empty, but the padding the serializer wrote is skipped all the same; BugZstNoAlign =
+               \* pinned tree: the ε-copy reader returned before aligning)
+               IF m = "eps" /\ SizeOf(T) = 0 /\ BugZstNoAlign
                THEN PushVal(MemParse(T, <<>>)) /\ Cont(<<>>) /\ UNCHANGED <<rstatus, rdetail, allocs>>
                ELSE Cont(<<FAlign(Unit(T), m), FBlock(T, 1, m, "one")>>)
                     /\ UNCHANGED <<vals, rstatus, rdetail, allocs>>
